@@ -148,6 +148,10 @@ def run(ctx):
     for it in range(int(60 * B)):
         n = rng.randint(1, 5)
         do(ctx, 'diag_state', [gen.rtableau(rng, ctx.model, n, r=0)], nontrivial=('s', it))
+    # basis and product-like states (0-2 rotations away from |b>) with every kind of sign pattern
+    for it in range(int(60 * B)):
+        n = rng.randint(1, 4)
+        do(ctx, 'diag_state', [gen.rtableau(rng, ctx.model, n, r=0, depth=rng.randint(0, 2))], nontrivial=('sb', it))
     # corpus: witnesses of the fixed identity-leading-term defect
     do(ctx, 'sbrg', [2, [[[0, 0, 0, 0], 3.0], [[0, 1, 0, 1], 1.0], [[1, 0, 1, 0], 0.5]], True], nontrivial='w_id1', sample=True)
     do(ctx, 'sbrg', [2, [[[0, 0, 0, 0], 3.0], [[1, 1, 0, 1], 1.0], [[0, 1, 1, 1], 0.5]], True], nontrivial='w_id2')
